@@ -37,7 +37,8 @@ Init == /\ \E u \in Upems : \E vm \in Vmetrics : \E wm \in WidthModes :
              LET asc == (vm[1] * u) \div 1000  desc == -((vm[2] * u) \div 1000) IN
              cfg = [upem |-> u, asc |-> asc, desc |-> desc,
                     width |-> CASE wm = "zero" -> 0 [] wm = "half" -> (asc - desc) \div 2
-                                [] wm = "em" -> asc - desc [] wm = "double" -> 2 * (asc - desc)]
+                                [] wm = "em" -> asc - desc [] wm = "double" -> 2 * (asc - desc)
+                                [] wm = "quad" -> 4 * (asc - desc)]   \* offsets beyond int8: sbix holds them, CBDT cannot
         /\ \E h \in Heights : \E a \in Aspects : img = [w |-> (h * a[1]) \div a[2], h |-> h]
         /\ gids \in GidSets
         /\ phase = "guard" /\ ppem = 0 /\ widthPx = 0 /\ m = [x |-> 0, y |-> 0, lh |-> 0, la |-> 0]
